@@ -26,8 +26,11 @@ TDICT = [O(0x2000, 0, True, True, "int", [1, 2, 3, 4]), O(0x2001, 0, True, False
          O(0x2010, 4, True, True, "dom", dom(1000)), O(0x2010, 5, True, True, "dom", dom(5)), O(0x2010, 6, True, True, "dom", dom(14)),
          O(0x2010, 7, True, True, "dom", dom(889)), O(0x2010, 8, True, True, "dom", dom(890)),
          O(0x2020, 1, True, False, "str", [97, 98, 99]), O(0x2020, 2, True, False, "str", list(range(65, 75))), O(0x2020, 3, True, False, "str", [48 + (i % 40) for i in range(40)]),
-         O(0x2030, 0, True, True, "app", [5, 6, 7, 8], [49, 0, 9, 6])]
-MISSING = [(0x2000, 1), (0x3000, 0), (0x0FFF, 0), (0x2010, 9), (0x2010, 0), (0x2021, 0), (0xFFFF, 255)]
+         O(0x2030, 0, True, True, "app", [5, 6, 7, 8], [49, 0, 9, 6]),
+         # objects far away in the index space (network variables A000h.., the last index): the dictionary spans more than 8000h
+         O(0xA100, 0, True, True, "int", [1, 1, 1, 1]), O(0xA100, 1, True, False, "int", [2, 2]), O(0xA580, 1, True, True, "dom", dom(20)),
+         O(0xFFFE, 254, True, True, "int", [7])]
+MISSING = [(0x2000, 1), (0x3000, 0), (0x0FFF, 0), (0x2010, 9), (0x2010, 0), (0x2021, 0), (0xFFFF, 255), (0xA100, 2), (0xA101, 0), (0x9FFF, 0), (0xFFFE, 255)]
 
 
 def le(v, n):
